@@ -11,14 +11,14 @@ type Gen struct {
 	R *rand.Rand
 	// variables known to be defined, by rough type
 	Ints, Strs, Bools, Lists, Maps []string
-	Depth                         int
-	Macros                        []macroSig // macros callable by bare name in the current template
-	Modules                       map[string][]macroSig
-	Filters                       []string // extra (spy) filters usable in chains
-	Functions                     []string // extra (spy) functions
-	Tests                         []string
-	NoFilters                     bool
-	names                         int
+	Depth                          int
+	Macros                         []macroSig // macros callable by bare name in the current template
+	Modules                        map[string][]macroSig
+	Filters                        []string // extra (spy) filters usable in chains
+	Functions                      []string // extra (spy) functions
+	Tests                          []string
+	NoFilters                      bool
+	names                          int
 }
 
 type macroSig struct {
